@@ -6,7 +6,10 @@ CLAIMED = {
     "C12": {
         "text": "Theorems for every occurrence sequence / casing / path prefix over the model instantiated with the regenerated vocabulary, "
                 "negative prefix and __call__ decision table (C12_flag_meets_spec, C12_last_wins, C12_vocab_*, C12_negative_is_documented, "
-                "C12_negatives_injective); negative-option construction and argparse delivery are hand-modelled and tied by correspondence.",
+                "C12_negatives_injective); the negative-option construction of BooleanOptionalAction.__init__ is dumped from its ast into the MiniPy deep "
+                "embedding on every run and C12_source_is_model proves that interpreting it equals the model's negative_option_strings for every "
+                "prefix / explicit negative / conflict prefix / option-string list (NotImplementedError branch and the constructor's assertion "
+                "included); argparse delivery is hand-modelled and tied by correspondence (and by the ARGP engine).",
         "note": COMMON_NOTE + "argparse's delivery of an occurrence to the action (type= first, nargs='?') is modelled.",
         "technique": "Coq proof over regenerated facts + vm_compute model/impl correspondence",
     },
@@ -16,8 +19,11 @@ CLAIMED["C03"] = {
             "exhaustion error regenerated from conflicts.py, for ALL forests and ANY option-string function: success => all registered "
             "option strings pairwise distinct (C03_resolved_options_unique); only prefixes change (C03_frame); NONE raises iff a clash exists; "
             "every failure is a ConflictResolutionError; without user prefixes every final prefix is a suffix of the destination path "
-            "(C03_auto_suffix/C03_suffix_name), full path or nothing under EXPLICIT. 'A field whose name clashes with nothing keeps its bare name' "
-            "and 'passing an option changes exactly its leaf' are evaluated by the Coq spec on every observed parser (sampled, not proved).",
+            "(C03_auto_suffix/C03_suffix_name), full path or nothing under EXPLICIT; a field whose name clashes with nothing keeps its bare name "
+            "(C03_unclashed_keeps_bare_name); an option string identifies one field (C03_option_identifies_field) and, composed with the token-level "
+            "argparse model ARGP, passing it with a plain value token (either spelling) sets exactly that leaf's destination and leaves every other "
+            "destination as the empty command line does (C03_option_changes_exactly_its_leaf, ..._eq_spelling, and their instances for the generated "
+            "option strings). The same is evaluated by the Coq spec on every observed parser.",
     "note": COMMON_NOTE + "The traversal order of field wrappers is computed by the harness and compared with the implementation's in every case.",
     "technique": "Coq proof over regenerated facts + vm_compute model/impl correspondence",
 }
@@ -70,7 +76,9 @@ CLAIMED["C04"] = {
 CLAIMED["C11"] = {
     "text": "C11_scalar / C11_scalar_count_rule for all n >= 2 and all token lists (absent -> defaults, one -> all, n -> i-th to i-th in registration order, "
             "otherwise InconsistentArgumentError), C11_merge_order; the container statement is refuted with four witnesses (known findings) and proved as "
-            "C11_container_partial for bracketed literals with safe defaults. duplicate_if_needed's chain, the default packaging condition and nargs are regenerated.",
+            "C11_container_partial for bracketed literals with safe defaults. duplicate_if_needed's chain, the default packaging condition and nargs are regenerated; "
+            "in addition the BODY of duplicate_if_needed is dumped from its ast into the MiniPy deep embedding on every run and C11_source_is_model proves that "
+            "interpreting it equals the model's duplicate_gen for all n >= 2, container kinds and parsed-value lists.",
     "note": COMMON_NOTE + "token literals (ast.literal_eval) and nested layouts are covered by correspondence only.",
     "technique": T,
 }
@@ -122,7 +130,8 @@ CLAIMED["C08"] = {
     "text": "A process-level state machine (global FieldWrapper settings, per-parser cached set-up, tuple counters, config-path argument, config defaults) with "
             "C08_history_partial proved by induction over operation lists of ANY length: under the decidable predicate `benign`, every parse equals the fresh "
             "interpreter's answer; each clause of `benign` is guarded by a regenerated fact (two of them flipped by the fix: commits for spelling and the "
-            "config-path argument); the remaining situations are refuted with minimal witnesses (known findings). Each history of the correspondence runs in "
+            "config-path argument; a third says that the set-up-done flag is assigned after the work, from which C08_failed_setup_leaves_parser / "
+            "C08_failed_help_leaves_parser follow); the remaining situations are refuted with minimal witnesses (known findings). Each history of the correspondence runs in "
             "its own fresh process and is compared with the model and with a fresh-interpreter oracle.",
     "note": COMMON_NOTE + "thread interleavings are not exhibited (the library has no synchronisation; API-call-level interleavings are the op sequences).",
     "technique": T,
